@@ -64,6 +64,9 @@ class Env:
         self.opens = []
         self.lun = 0            # LUN the URL stub reports (may be a solver variable)
         self.open_error = None  # exception the next open() raises (consumed), e.g. PermissionError
+        self.open_error_sticky = False  # keep raising open_error on every open() until it is cleared
+        self.flicker_after_open = False  # one-shot: the stat that follows the next successful open() fails
+        self.stat_fails_once = False
         self.sgio_return = 0    # what sgio.execute returns on success (cython-sgio: the residual count; may be symbolic)
 
     # ---- filesystem
@@ -71,16 +74,25 @@ class Env:
         self.log.append(("open", name, mode))
         self.opens.append((name, mode, buffering))
         if self.open_error is not None:
-            e, self.open_error = self.open_error, None
+            e = self.open_error
+            if not self.open_error_sticky:
+                self.open_error = None
             raise e
         if self.cur_inode is None:
             raise FileNotFoundError(2, "No such file or directory", name)
         h = Handle(self, name, mode, self.cur_inode, buffering)
         self.handles.append(h)
+        if self.flicker_after_open:
+            # the node disappears right after this open (the next stat fails once), then it is back
+            self.flicker_after_open = False
+            self.stat_fails_once = True
         return h
 
     def stat(self, name, *a, **k):
         self.log.append(("stat", name))
+        if self.stat_fails_once:
+            self.stat_fails_once = False
+            raise FileNotFoundError(2, "No such file or directory (stub: node flickered)", name)
         if self.cur_inode is None:
             raise FileNotFoundError(2, "No such file or directory", name)
         return types.SimpleNamespace(st_ino=self.cur_inode)
